@@ -177,3 +177,46 @@ contract(MN, 'NFABuilder.build', {'self': 'Builder'}, returns='NFA', modifies=['
          note='a tokenised NFA description is turned into exactly the automaton that was written (states, alphabet without the epsilon symbol, epsilon symbol = the declared one, else the conventional one if a label contains it, else "_", '
               'initial state, final states, delta(p, a) = the targets of the lines p q a); an exception is raised exactly when a used state is undeclared, a name is malformed, the number of initial states is not one, the epsilon '
               'declaration has no or several values, a used symbol is undeclared, or the epsilon symbol is among the declared input symbols')
+
+
+# ------------------------------------------------------------------------------------------------ the line-level methods of AutomatonParser (after str.split)
+DUP = 'any(0 <= i and i < j and j < %s and words[i] == words[j] for i in ints() for j in ints())'
+contract(MB, 'AutomatonParser._check_no_duplicate_keys', {'self': 'Parser', 'key': 'Atom'}, returns='None', raises='key in self.items', theories=[], props=['C17'],
+         note='raises exactly when the keyword has been seen before (repeated declaration)')
+contract(MB, 'AutomatonParser._check_no_duplicates', {'self': 'Parser', 'words': 'List[Atom]'}, returns='None', types={'W': 'Set[Atom]'},
+         raises=DUP % 'len(words)',
+         loops={1: {'ghost': 'idx', 'invariant': ['all((x in W) == any(words[t] == x for t in range(idx)) for x in atoms())', 'not ' + DUP % 'idx']}},
+         theories=[], props=['C17'], note='raises exactly when a name occurs twice in the list')
+contract(MB, 'AutomatonParser._check_keys_exist', {'self': 'Parser', 'keys': 'List[Atom]'}, returns='None',
+         raises='any(keys[t] not in self.items for t in range(len(keys)))',
+         loops={1: {'ghost': 'idx', 'invariant': ['all(implies(0 <= t and t < idx, keys[t] in self.items) for t in ints())']}},
+         theories=[], props=['C17'])
+contract(MB, 'AutomatonParser._check_state_label', {'self': 'Parser', 'state': 'Atom'}, returns='None',
+         raises='not re_fullmatch(self.state_regex, state)', theories=[], props=['C17'])
+contract(MB, 'AutomatonParser._check_transition_label', {'self': 'Parser', 'label': 'Atom'}, returns='None',
+         raises='not re_fullmatch(self.transition_regex, label)', theories=[], props=['C17'])
+contract(MB, 'AutomatonParser.parse_state', {'self': 'Parser', 'state': 'Atom'}, returns='Atom',
+         raises='not re_fullmatch(self.state_regex, state)', ensures=['result == state'], theories=[], props=['C17'])
+contract(MB, 'AutomatonParser.parse_transition_label', {'self': 'Parser', 'label': 'Atom'}, returns='Atom',
+         raises='not re_fullmatch(self.transition_regex, label)', ensures=['result == label'], theories=[], props=['C17'])
+contract(MB, 'AutomatonParser.parse_state_set', {'self': 'Parser', 'keyword': 'Atom', 'words': 'List[Atom]', 'check_non_empty': 'Bool'}, returns='Set[Atom]',
+         defaults={'check_non_empty': 'False'},
+         raises=['keyword in self.items', DUP % 'len(words)', 'check_non_empty and len(words) == 0', 'any(not re_fullmatch(self.state_regex, words[t]) for t in range(len(words)))'],
+         raise_witness={'AutomatonParser__check_no_duplicate_keys': 0, 'AutomatonParser__check_no_duplicates': 1, 'raise#1': 2, 'AutomatonParser_parse_state': 3},
+         ensures=['result == list_elems(words)'], theories=TH, props=['C17'],
+         note='a declaration line "states ..." / "initial ..." / "final ...": the set of the names listed; raises exactly when the declaration is repeated, a name is listed twice, the list is empty where that is not allowed, or a name is malformed')
+_OTR = 'old(self.transitions)'
+_PT_INV = ['len(self.transitions) == len(%s) + %%s' % _OTR,
+           'all(implies(0 <= t and t < len(%s), self.transitions[t] == %s[t]) for t in ints())' % (_OTR, _OTR),
+           'all(implies(0 <= k and k < %%s, self.transitions[len(%s) + k] == (words[0], words[k + 2], words[1])) for k in ints())' % _OTR,
+           'self.items == old(self.items)', 'self.states == old(self.states)', 'self.initial_states == old(self.initial_states)', 'self.final_states == old(self.final_states)',
+           'self.keywords == old(self.keywords)', 'self.state_regex == old(self.state_regex)', 'self.transition_regex == old(self.transition_regex)']
+contract(MB, 'AutomatonParser.parse_transition', {'self': 'Parser', 'words': 'List[Atom]', 'line': 'Atom'}, returns='None', modifies=['self'],
+         raises=['len(words) <= 2', 'not re_fullmatch(self.state_regex, words[0])', 'not re_fullmatch(self.state_regex, words[1])',
+                 'any(2 <= t and t < len(words) and not re_fullmatch(self.transition_regex, words[t]) for t in ints())'],
+         raise_witness={'raise#1': 0, 'AutomatonParser_parse_transition_label': 3},
+         ensures=[x % 'len(words) - 2' if '%s' in x else x for x in _PT_INV],
+         loops={1: {'ghost': 'idx', 'invariant': ['p == words[0]', 'q == words[1]', 'len(words) > 2'] + [x % 'idx' if '%s' in x else x for x in _PT_INV]
+                                                 + ['all(implies(2 <= t and t < idx + 2, re_fullmatch(self.transition_regex, words[t])) for t in ints())']}},
+         theories=[], props=['C17'],
+         note='a transition line "p q a1 ... ak": the transitions (p, a1, q) ... (p, ak, q) are appended in this order and nothing else changes; raises exactly when there is no label, a state name is malformed or a label is malformed')
